@@ -73,6 +73,19 @@ def _fc(side, name):
     return side.fc[name]
 
 
+def _scribble(side, raw):
+    """User code owns what a query returned (C11): after taking its (normalised) answer it edits the returned containers
+    in place - the os.walk pruning idiom and friends.  Must never influence records, later answers or re-execution."""
+    if side.is_ref or not isinstance(raw, list):
+        return
+    for x in raw:
+        if isinstance(x, tuple):
+            for inner in x[1:]:
+                if isinstance(inner, list):
+                    inner[:] = [n for n in inner if not n.startswith('.')] + ['~scribble']
+    raw.append('~scribble')
+
+
 def do_query(b, side, kind, path):
     try:
         if kind == 'read_t':
@@ -89,7 +102,9 @@ def do_query(b, side, kind, path):
         elif kind == 'declare_m':
             r = b.declare_read(path, _fc(side, 'METADATA'))
         elif kind == 'walk_bu':
-            r = sorted([[d, sorted(sd), sorted(sf)] for d, sd, sf in b.walk(path, False)])
+            raw = b.walk(path, False)
+            r = sorted([[d, sorted(sd), sorted(sf)] for d, sd, sf in raw])
+            _scribble(side, raw)
         elif kind == 'read_m' or kind == 'read_h':
             cmp = _fc(side, 'METADATA' if kind == 'read_m' else 'HASH')
             h = b.read_binary(path, cmp)
@@ -100,9 +115,13 @@ def do_query(b, side, kind, path):
             r = side.world.cid_of(data, side.fs)
         elif kind == 'walk':
             # the order of names is unspecified by the API: a deterministic user function normalises it
-            r = sorted([[d, sorted(sd), sorted(sf)] for d, sd, sf in b.walk(path)])
+            raw = b.walk(path)
+            r = sorted([[d, sorted(sd), sorted(sf)] for d, sd, sf in raw])
+            _scribble(side, raw)
         elif kind == 'list_dir':
-            r = sorted(b.list_dir(path))
+            raw = b.list_dir(path)
+            r = sorted(raw)
+            _scribble(side, raw)
         else:
             r = getattr(b, kind)(path)
     except OSError as e:
